@@ -271,6 +271,22 @@ impl G {
         });
         n
     }
+    /// Ids of the nodes that may be wrapped by a decoration (not the iterable operand of a fold, which
+    /// must stay a repetition).
+    pub fn wrappable_ids(&self) -> Vec<u32> {
+        fn go(g: &G, ok: bool, out: &mut Vec<u32>) {
+            if ok {
+                out.push(g.id);
+            }
+            for (i, k) in g.kids.iter().enumerate() {
+                let iter_operand = (g.op == Op::Foldl && i == 1) || (g.op == Op::Foldr && i == 0);
+                go(k, !iter_operand, out);
+            }
+        }
+        let mut out = vec![];
+        go(self, true, &mut out);
+        out
+    }
     pub fn find(&self, id: u32) -> Option<&G> {
         if self.id == id {
             return Some(self);
